@@ -521,7 +521,9 @@ pub fn run(tier: &str) -> Result<Report, String> {
                 // oracle anchor: EX/EG/AU of the arguments computed explicitly
                 let labels = Labels { wild: vec![sets_m[pi].clone(), sets_m[q_idx[pi % q_idx.len()]].clone()], dom: vec![], props: vec![] };
                 let c2 = NetCtx::new(b.clone(), labels, "anchor");
-                for t in ["EX %p%", "EG %p%", "%p% AU %q%", "%p% EW %q%", "AF %p%"] {
+                let nests: Vec<String> = ["EX", "AX", "EF", "AF", "EG", "AG"].iter().flat_map(|u1| ["EX", "AX", "EF", "AF", "EG", "AG"].iter().map(move |u2| format!("{u1} ({u2} %p%)"))).collect();
+                for t in ["EX %p%", "EG %p%", "%p% AU %q%", "%p% EW %q%", "AF %p%"].iter().map(|s| s.to_string()).chain(nests.into_iter()) {
+                    let t = t.as_str();
                     let f = crate::formulas::f(t, &c2.user);
                     let bad = crate::sem::check_formula(&c2, &f, crate::sem::Checks { semantic: true, unit: false, entries: crate::sem::Entries::Ext2 }, None);
                     if !bad.is_empty() && out.len() < 3 {
@@ -555,8 +557,8 @@ pub fn run(tier: &str) -> Result<Report, String> {
             rep.add_count("compositionality_instances_tiny", (pc.len() * qc.len()) as u64 * napp * (napp - 1));
             rep.violations.extend(comp_bad.into_iter().take(20));
         }
-        rep.evaluations += (n * q_idx.len()) as u64 * 3 + n as u64 * 5;
-        rep.traces_validated += n as u64 * 5 * b.cols.len() as u64;
+        rep.evaluations += (n * q_idx.len()) as u64 * 3 + n as u64 * 41;
+        rep.traces_validated += n as u64 * 41 * b.cols.len() as u64;
         rep.add_count("library_law_instances_tiny", (n * q_idx.len()) as u64);
         rep.violations.extend(lib_bad.into_iter().take(20));
         let mut t = rep.extra.get("tiny_networks").cloned().unwrap_or(json!([]));
@@ -723,6 +725,6 @@ pub fn run(tier: &str) -> Result<Report, String> {
     rep.distinct_nontrivial = rep.extra.get("law_instances_tiny").and_then(|v| v.as_u64()).unwrap_or(0) + big_total;
     rep.set("laws", json!(all.iter().map(|l| format!("{}: {} {} {}", l.name, l.lhs, if l.rel == Rel::Eq { "=" } else { "⊆" }, l.rhs)).collect::<Vec<_>>()));
     rep.sample(json!({"law": "AU fixed point", "network": "con2", "p": [5, 9], "q": [2, 0], "meaning": "per-colour state masks of the wild-card sets; both sides evaluated by the tool and compared as sets"}));
-    rep.rule = format!("{} laws (fixed-point equations, dualities in both directions - a negation directly above every temporal operator -, excluded middle for the until operators, inclusions, monotonicity in every argument, steady states as self-loops) + 3 graph-library laws (EF = reach_backward, AG = trap_forward, EU = reach_bwd in the restricted graph), each instantiated with wild-card arguments (also: every one-argument law and the library laws on every one of the 256 state sets of 512 (quick: 128) three-variable networks built from a menu of 8 update functions per variable (regulations unsigned, and the same dynamics with sign and observability of every essential input declared); on the tiny networks every law x first-argument set also with both sides submitted as one batch, in both orders, to model_check_multiple_extended_formulae_dirty; compositionality: for every ordered pair (A, B) of 20 operator applications over the same arguments the single formula `A & B` must be the intersection of A and B evaluated on their own, and the batch [A, B] must return both - all (p, q) on networks with <= 16 sets, a spread of q otherwise (thorough): on the tiny networks {which:?} with EVERY coloured set as p (all pairs (p,q) when the network has <= 16 sets, or <= 256 in the thorough tier; otherwise q from a spread of 16, r from a spread of 4), anchored by the explicit-state oracle; on the bundled models {models:?} with a declared family (on the pairs16 networks: the set AND_i (a_i <=> b_i) with a BDD of 196 607 nodes, its complement, its intersection / union with a literal; elsewhere: literals, conjunctions/disjunctions of two literals over the first 4 variables, each also cut by each half of the colour space, empty, unit, results of two formulae). distinct_nontrivial = number of law instances (distinct (law, argument tuple, network))", all.len());
+    rep.rule = format!("{} laws (fixed-point equations, dualities in both directions - a negation directly above every temporal operator -, excluded middle for the until operators, inclusions, monotonicity in every argument, steady states as self-loops) + 3 graph-library laws (EF = reach_backward, AG = trap_forward, EU = reach_bwd in the restricted graph), each instantiated with wild-card arguments (also: every one-argument law and the library laws on every one of the 256 state sets of 512 (quick: 128) three-variable networks built from a menu of 8 update functions per variable (regulations unsigned, and the same dynamics with sign and observability of every essential input declared); on the tiny networks every law x first-argument set also with both sides submitted as one batch, in both orders, to model_check_multiple_extended_formulae_dirty; compositionality: for every ordered pair (A, B) of 20 operator applications over the same arguments the single formula `A & B` must be the intersection of A and B evaluated on their own, and the batch [A, B] must return both - all (p, q) on networks with <= 16 sets, a spread of q otherwise (thorough): on the tiny networks {which:?} with EVERY coloured set as p (all pairs (p,q) when the network has <= 16 sets, or <= 256 in the thorough tier; otherwise q from a spread of 16, r from a spread of 4), anchored by the explicit-state oracle (EX, EG, AU, EW, AF and all 36 nests of two unary temporal operators on every set); on the bundled models {models:?} with a declared family (on the pairs16 networks: the set AND_i (a_i <=> b_i) with a BDD of 196 607 nodes, its complement, its intersection / union with a literal; elsewhere: literals, conjunctions/disjunctions of two literals over the first 4 variables, each also cut by each half of the colour space, empty, unit, results of two formulae). distinct_nontrivial = number of law instances (distinct (law, argument tuple, network))", all.len());
     Ok(rep)
 }
